@@ -152,7 +152,7 @@ def tap_walk(ck, name, cfg, steps, coq_exprs, expect, hostile=0.0):
                     if _tag == "KReturn":
                         # what the simulation answered to the agent's previous request, read here and not taken from the agent
                         ts = k.get("timestep", a[0] if a else None)
-                        status = self.history[ts].response.status
+                        status = self.history[ts].response.status if ts < len(self.history) else "success"    # nothing requested yet
                     r = _o(self, *a, **k)
                     after = (int(self.current_kill_chain_stage), int(self.next_kill_chain_stage))
                     lg = getattr(self, "_pv_log", None)
@@ -168,7 +168,14 @@ def tap_walk(ck, name, cfg, steps, coq_exprs, expect, hostile=0.0):
     prev = {a: (int(ag.current_kill_chain_stage), int(ag.next_kill_chain_stage)) for a, ag in taps}
     act_times = {a: [] for a, _ in taps}
     for st in range(steps):
-        env.step(rng.randrange(n) if not hostile or rng.random() < 0.15 else 0)
+        try:
+            env.step(rng.randrange(n) if not hostile or rng.random() < 0.15 else 0)
+        except Exception as e:
+            ck.violation("scripted-agent-step-raises:%s" % type(e).__name__, "%s: env.step raised %r at step %d (threat-actor settings %s)"
+                         % (name, e, st, {a: dict(start_step=g.config.agent_settings.start_step, frequency=g.config.agent_settings.frequency,
+                                                    variance=g.config.agent_settings.variance) for a, g in taps}),
+                         {"scenario": name, "step": st})
+            return
         for aname, ag in hook(env):
             h = ag.history[-1]
             if hostile and h.action != "do-nothing" and h.response.status == "success" and \
@@ -306,7 +313,7 @@ def run(ck):
                         a["agent_settings"]["repeat_kill_chain_stages"] = rs
                         a["agent_settings"]["frequency"] = rng.choice([2, 3])
                         a["agent_settings"]["variance"] = rng.choice([0, 1])
-                        a["agent_settings"]["start_step"] = rng.choice([1, 2, 4])
+                        a["agent_settings"]["start_step"] = rng.choice([0, 1, 2, 4])
                 tap_walk(ck, "pkg/%s + hostile defender, repeat_kill_chain_stages=%s" % (nme, rs), cfg2, ck.n(70, 128), exprs, expect, hostile=0.6)
     try:
         got = coq_compute(ck, "From Coq Require Import QArith.\nFrom PV Require Import Model.Scripted.", exprs, name="c19b")
